@@ -101,7 +101,7 @@ def draw_vc(ntm, nfm, with_lengths):
         return [("all", z3.And([g for _, g in goals]))] if goals else True
 
     pre = [T >= 1, F >= 1, L >= 1, L <= T, EPS > 0, EPS <= z3.RealVal(1) / 1024, MTW >= 0, MFW >= 0, MTM >= 0, MFM >= 0, MTMP >= 0, MTMP <= 1, NTMP >= 0, NTMP <= 1]
-    return VC("C08.draw.bounds", name, M, "spec_augment_draw_parameters", thunk, pre=pre, posts=[("limits", post)],
+    return VC("C08.P.draw_bounds", name, M, "spec_augment_draw_parameters", thunk, pre=pre, posts=[("limits", post)],
               twins=[("mask_may_start_anywhere", lambda p: z3.And([ip.to_z3(x) + 1 <= L for x in (p.value[4].a.reshape(-1) if isinstance(p.value[4], ct.CT) and p.value[4].a.size else [])] or [z3.BoolVal(True)]) if api.returns(p) and ntm else None)] if ntm else [],
               inputs={"T": T, "F": F, "length": L, "max_time_mask": MTM, "max_freq_mask": MFM, "max_time_mask_proportion": MTMP, "num_time_mask_proportion": NTMP,
                       "max_time_warp": MTW, "max_freq_warp": MFW, "eps": EPS},
